@@ -99,10 +99,26 @@ func (x *Exec) stdlib(s *State, in *ssa.Call, f *ssa.Function, args []Val) Val {
 		return scalar(sfun("str_tolower", SStr, args[0].T))
 	case "(*regexp.Regexp).ReplaceAllString":
 		return scalar(sfun("re_replace", SStr, args[0].T, args[1].T, args[2].T))
-	case "strings.Join", "strings.ReplaceAll", "(*strings.Replacer).Replace", "fmt.Sprintf", "(*bytes.Buffer).String":
+	case "(*strings.Replacer).Replace":
+		// the result is a function of the pair list the Replacer was built from and of the subject
+		if rec, ok := s.replacers[args[0].T.S]; ok && len(args) == 2 {
+			x.needTheory = true
+			return scalar(mk(SStr, "repl_apply", rec[0], rec[1], rec[2], args[1].T))
+		}
+		return x.freshVal(s, "str", types.Typ[types.String])
+	case "strings.Join", "strings.ReplaceAll", "fmt.Sprintf", "(*bytes.Buffer).String":
 		return x.freshVal(s, "str", types.Typ[types.String])
 	case "strings.NewReplacer", "hash/fnv.New64a":
 		r := x.alloc(s, "obj")
+		if name == "strings.NewReplacer" && len(args) == 1 && args[0].K == vSlice {
+			// a Replacer keeps the pair list as it is now (NewReplacer copies it)
+			is := x.intSort()
+			inner := Select(x.heapSym(s, "S:string", SArray(SInt, SArray(is, SStr))), args[0].Arr, SArray(is, SStr))
+			if s.replacers == nil {
+				s.replacers = map[string][3]T{}
+			}
+			s.replacers[r.S] = [3]T{x.define(s, "repl.pairs", inner), args[0].Off, args[0].Len}
+		}
 		if name == "hash/fnv.New64a" {
 			bufs := x.heapSym(s, "ghost:buf", SArray(SInt, SStr))
 			s.assume(Eq(Select(bufs, r, SStr), T{"str.empty", SStr})) // nothing written yet
